@@ -6,6 +6,7 @@
 From Xpl Require Import Base.Tensor.
 From Xpl Require C03.Proofs C06.Spec C06.Proofs C04.Spec C04.Proofs C09.Spec C09.Proofs C14.Spec C14.Proofs.
 From Xpl Require C01.Model C01.Spec C01.Proofs C08.Model C08.Spec C08.Proofs C15.Model C15.Spec C15.Proofs.
+From Xpl Require C07.Model C07.Spec C07.Proofs C10.Model C10.Spec C10.Proofs.
 Open Scope Qc_scope.
 
 (* ---- generic: row-wise evaluation batch by batch = evaluation at once, for every batch size ---- *)
@@ -158,3 +159,28 @@ Example C03_nonvacuous :
   chunks 3 [1; 2; 3; 4; 5; 6; 7]%nat = [[1; 2; 3]; [4; 5; 6]; [7]]%nat /\
   C03.Proofs.select [2; 0; 0]%nat [10; 11; 12]%nat 0%nat = [12; 10; 10]%nat.
 Proof. split; [cbn; lia|]. split; [exact I|]. split; reflexivity. Qed.
+
+(* ---- Lime / KernelShap: the (nb_samples) perturbed samples of an input are scored batch by batch; the fitted surrogate,
+        hence the explanation, is the same for every batch size (any positive integer or None) ---- *)
+Theorem C03_lime_batch_invariant :
+  forall (score : list Qc -> list Qc -> Qc) (karg : list Qc -> list bool -> list Qc -> Qc)
+         (fit : list (list bool) -> list Qc -> list Qc -> list Qc) bs bs' nb k ref xs ts mappings Zs,
+    C07.Spec.bs_ok bs nb -> C07.Spec.bs_ok bs' nb ->
+    (forall x mp, In (x, mp) (combine xs mappings) -> C07.Spec.lime_ok k ref x mp) ->
+    C07.Model.lime score karg fit bs nb k ref xs ts mappings Zs = C07.Model.lime score karg fit bs' nb k ref xs ts mappings Zs.
+Proof. exact C07.Proofs.lime_batch_invariant. Qed.
+Print Assumptions C03_lime_batch_invariant.
+
+(* ---- DeconvNet / GuidedBackprop (modified back-propagation through the commuted-ReLU clone) ---- *)
+Theorem C03_relu_explainers_batch_invariant :
+  forall p n bs bs' xs ts, C06.Proofs.bs_ok bs -> C06.Proofs.bs_ok bs' ->
+    C10.Model.relu_explainer p n bs xs ts = C10.Model.relu_explainer p n bs' xs ts.
+Proof. exact C10.Proofs.relu_explainer_batch_invariant. Qed.
+Print Assumptions C03_relu_explainers_batch_invariant.
+
+(* ---- Grad-CAM / Grad-CAM++ (any channel-weight rule, any resize) ---- *)
+Theorem C03_gradcam_batch_invariant :
+  forall weights resize n cl bs bs' xs ts, C06.Proofs.bs_ok bs -> C06.Proofs.bs_ok bs' ->
+    C10.Model.gradcam_gen weights resize n cl bs xs ts = C10.Model.gradcam_gen weights resize n cl bs' xs ts.
+Proof. exact C10.Proofs.gradcam_batch_invariant. Qed.
+Print Assumptions C03_gradcam_batch_invariant.
